@@ -229,7 +229,10 @@ Definition read (rsv : gset string) (bbs : list bbdef) (m : vmodule) : res Circu
 
 (* io.verilog_to_circuit, specification level: the text is a sequence of modules; the module called `name` is read
    (leftmost one), else - when the name was inferred from a file name - the first module, else ValueError.
-   (The implementation cuts the text with the regex module\s+<name>\s*\(.*?\);(.*?)endmodule; the character level is not modelled.) *)
+   (The implementation blanks the comments of a copy of the text, looks for module\s+<name>\s*\(.*?\);(.*?)\bendmodule\b in
+   the copy and cuts the original at these positions: the first `endmodule` token that is not inside a comment ends the
+   module - exactly the module boundary of the token stream.  The character level itself is not modelled; the generator
+   puts the word endmodule into comments, identifiers (x_endmodule, endmodule_x) and a blackbox type (endmodule_ff).) *)
 Definition select_module (name : string) (infer : bool) (mods : list vmodule) : res vmodule :=
   match list_find (λ m, m_name m = name) mods with
   | Some (_, m) => Ok m
